@@ -90,6 +90,8 @@ def _gen_index_case(ch: core.Chooser) -> dict:
     if ch.chance(0.2):
         case["abort_first"] = ch.below(100000)
     c2 = ch.sub("more")
+    if c2.sub("nps").chance(0.15):
+        case["np_scalars"] = True  # flags, dimension count and norm arrive as numpy scalars (numpy.bool_, numpy.int64, numpy.float64)
     if c2.chance(0.1):
         # one short and one long axis: degree sums beyond 255 while every single exponent stays small enough for a
         # compact storage type
@@ -364,12 +366,19 @@ class Runner:
         if step.get("bound_dtype"):
             dt = numpy.dtype(step["bound_dtype"])
             kwargs["start"], kwargs["stop"] = (numpy.array(v, dtype=dt) if isinstance(v, list) else dt.type(v) for v in (step["start"], step["stop"]))
+        if step.get("np_scalars"):
+            if kind != "monomial":  # (monomial documents `dimensions` as int or names and tells them apart by isinstance(int))
+                kwargs["dimensions"] = numpy.int64(kwargs["dimensions"])
+            ctv = kwargs["cross_truncation"]
+            kwargs["cross_truncation"] = numpy.float64(ctv) if not isinstance(ctv, (list, tuple)) else [numpy.float64(v) for v in ctv]
         if kind == "bindex":
             ordering = step["ordering"]
             graded, reverse, inverse = "G" in ordering, "R" not in ordering, "I" in ordering
             func = lambda: numpoly.bindex(ordering=ordering, **kwargs)
         else:
             graded, reverse, inverse = step["graded"], step["reverse"], False
+            if step.get("np_scalars"):
+                graded, reverse = numpy.bool_(graded), numpy.bool_(reverse)
             if kind == "glexindex":
                 func = lambda: numpoly.glexindex(graded=graded, reverse=reverse, **kwargs)
             else:
@@ -572,7 +581,7 @@ def simplify(plan: dict):
                             nk[r][j] = v - 1
                             yield dict(plan, steps=[dict(step, keys=nk)])
         elif step["k"] in ("glexindex", "bindex", "monomial"):
-            for key in ("bound_dtype", "errstate", "mutate_first", "abort_first", "alloc_fault", "key_dtype"):
+            for key in ("bound_dtype", "errstate", "mutate_first", "abort_first", "alloc_fault", "key_dtype", "np_scalars"):
                 if step.get(key):
                     yield dict(plan, steps=[{k: v for k, v in step.items() if k != key}])
             if step["dimensions"] > 1 and not isinstance(step["stop"], list) and not isinstance(step["start"], list):
